@@ -369,7 +369,7 @@ theorem fmoveDown_eq {A : Pos → Option (Leaf H)} {C : H → Option Pos} {N : L
 
 /-! ### the chain -/
 
-theorem funremove_chain (cr : CR H) : ∀ (ds : List Pos) (F : Forest H), F.numLeaves < 2 ^ 64 → Hyg F →
+theorem funremove_chain (nz : NZ H) : ∀ (ds : List Pos) (F : Forest H), F.numLeaves < 2 ^ 64 → Hyg F →
     (∀ d ∈ ds, ∃ h b, (d, h, b) ∈ F.nodes) →
     ds.Pairwise (fun a b => ¬ Anc (parent a) b ∧ ¬ Anc b (parent a)) →
     ∀ (P : H → Prop), (∀ d ∈ ds, ∀ t x, (t, x, true) ∈ F.nodes → Anc d t → P x) →
@@ -384,12 +384,12 @@ theorem funremove_chain (cr : CR H) : ∀ (ds : List Pos) (F : Forest H), F.numL
   | d :: ds, F, hn, hy, hnode, hsep, P, hPd, A, C, fa => by
     obtain ⟨h, b, hd⟩ := hnode d List.mem_cons_self
     rw [List.pairwise_cons] at hsep
-    have L := laws_forest cr F hn hy
+    have L := laws_forest nz F hn hy
     have hy1 := hyg_delLeaves hy (leavesUnder F d)
     have hnl1 : (F.delLeaves (leavesUnder F d)).numLeaves = F.numLeaves := numLeaves_delLeaves F _
     have hn1 : (F.delLeaves (leavesUnder F d)).numLeaves < 2 ^ 64 := by rw [hnl1]; exact hn
     have L1 : Laws (F.delLeaves (leavesUnder F d)).nodes (FRoot F) := by
-      have := laws_forest cr (F.delLeaves (leavesUnder F d)) hn1 hy1
+      have := laws_forest nz (F.delLeaves (leavesUnder F d)) hn1 hy1
       rwa [froot_del] at this
     have pers : ∀ d' ∈ ds,
         (∀ h' b', (d', h', b') ∈ F.nodes → (d', h', b') ∈ (F.delLeaves (leavesUnder F d)).nodes) ∧
@@ -398,12 +398,12 @@ theorem funremove_chain (cr : CR H) : ∀ (ds : List Pos) (F : Forest H), F.numL
       have hs := hsep.1 d' hd'
       by_cases hroot : isRootPos F.numLeaves d = true
       · obtain ⟨s1, s2⟩ := sep_disj hs
-        exact persist_root cr F hn hy hroot s1 s2
+        exact persist_root nz F hn hy hroot s1 s2
       · have hnr : isRootPos F.numLeaves d = false := by
           cases hx : isRootPos F.numLeaves d with
           | false => rfl
           | true => exact absurd hx hroot
-        exact persist_nonroot cr F hn hy hd hnr hs.1 hs.2
+        exact persist_nonroot nz F hn hy hd hnr hs.1 hs.2
     have hmemLU : ∀ d' ∈ ds, ∀ x, x ∈ leavesUnder (F.delLeaves (leavesUnder F d)) d' ↔ x ∈ leavesUnder F d' := by
       intro d' hd' x
       rw [mem_leavesUnder, mem_leavesUnder]
@@ -423,7 +423,7 @@ theorem funremove_chain (cr : CR H) : ∀ (ds : List Pos) (F : Forest H), F.numL
       intro x
       simp only [List.flatMap_cons, List.mem_append]
       rw [hmemAll]
-    have ih := funremove_chain cr ds (F.delLeaves (leavesUnder F d)) hn1 hy1
+    have ih := funremove_chain nz ds (F.delLeaves (leavesUnder F d)) hn1 hy1
       (fun d' hd' => by
         obtain ⟨h', b', hm⟩ := hnode d' (List.mem_cons_of_mem _ hd')
         exact ⟨h', b', (pers d' hd').1 h' b' hm⟩)
@@ -456,13 +456,13 @@ theorem funremove_chain (cr : CR H) : ∀ (ds : List Pos) (F : Forest H), F.numL
     have conv : ∀ q, (∃ d' ∈ ds, holeOf (F.delLeaves (leavesUnder F d)).nodes d' q) →
         ∃ d' ∈ d :: ds, holeOf F.nodes d' q := by
       rintro q ⟨d', hd', hq, hm⟩
-      exact ⟨d', List.mem_cons_of_mem _ hd', hq, nodepos_back cr F hn hy hd (hsep.1 d' hd') hq hm⟩
+      exact ⟨d', List.mem_cons_of_mem _ hd', hq, nodepos_back nz F hn hy hd (hsep.1 d' hd') hq hm⟩
     show FAH (stepBack F.numLeaves d (moveBackAll F.numLeaves ds (A, C))).1
       (stepBack F.numLeaves d (moveBackAll F.numLeaves ds (A, C))).2 F.nodes P _
     unfold stepBack
     by_cases hroot : isRootPos F.numLeaves d = true
     · rw [if_pos hroot]
-      have hN'' := del_root cr F hn hy hroot (leavesUnder F d) (fun x => mem_leavesUnder)
+      have hN'' := del_root nz F hn hy hroot (leavesUnder F d) (fun x => mem_leavesUnder)
       have r := funroot L ih (d := d) hroot (hPd d List.mem_cons_self) hN''
       refine r.mono_hole ?_ hkout
       rintro q (hq | ⟨ha, hm⟩)
@@ -474,7 +474,7 @@ theorem funremove_chain (cr : CR H) : ∀ (ds : List Pos) (F : Forest H), F.numL
         | false => rfl
         | true => exact absurd hx hroot
       have hnrR : ¬ FRoot F d := by unfold FRoot; rw [hnr]; simp
-      obtain ⟨D1, D2, D3, D4⟩ := del_nonroot cr F hn hy hd hnr (leavesUnder F d) (fun x => mem_leavesUnder)
+      obtain ⟨D1, D2, D3, D4⟩ := del_nonroot nz F hn hy hd hnr (leavesUnder F d) (fun x => mem_leavesUnder)
       have r := funlift ⟨L, L1, ⟨h, b, hd⟩, hnrR, D1, D2, D3, D4⟩ ih (hPd d List.mem_cons_self)
         (fun q hq => (hole_rest_out q hq).1)
       refine r.mono_hole ?_ hkout
